@@ -12,6 +12,8 @@ import Genq.Proofs.InputClosure
 import Genq.Proofs.Lines
 import Genq.Model.GenSkel
 import Genq.Extracted.Gen
+import Genq.Model.ConvSkel
+import Genq.Extracted.Conv
 namespace Genq.Config
 
 section Lemmas
@@ -147,3 +149,10 @@ theorem C07_parsePrecedingComment_tie :
 example : lexBreaks "a\r\nb\rc\n".toList = 3 ∧ (linesFixed "a\r\nb\rc\nquery".toList).length = 4 := by decide
 
 end Genq.Lines
+
+namespace Genq
+
+/-- **C07_casing_tie** — Casing.validate / Casing.forEnum, as in /repo now (regenerated on every run), equal to the copy the model was written from -/
+theorem C07_casing_tie : Extracted.casingSkeleton = ConvSkel.casingSkeleton := rfl
+
+end Genq
